@@ -707,6 +707,9 @@ func (h *Handler) handleFormatting(params json.RawMessage) ([]TextEdit, error) {
 	}, nil
 }
 
+// maxTabSize is the widest indentation step formatSQL honours.
+const maxTabSize = 64
+
 // formatSQL provides basic SQL formatting
 func formatSQL(sql string, opts FormattingOptions) string {
 	// Basic SQL formatter - normalize whitespace and keyword casing
@@ -716,7 +719,14 @@ func formatSQL(sql string, opts FormattingOptions) string {
 	indent := ""
 	if opts.InsertSpaces {
 		if opts.TabSize > 0 {
-			indent = strings.Repeat(" ", opts.TabSize)
+			// The number comes from the client: an absurd one must not become an
+			// allocation of that many bytes per indentation level (an out-of-memory
+			// condition ends the process, recover() does not catch it)
+			tabSize := opts.TabSize
+			if tabSize > maxTabSize {
+				tabSize = maxTabSize
+			}
+			indent = strings.Repeat(" ", tabSize)
 		}
 	} else {
 		indent = "\t"
